@@ -1,10 +1,10 @@
 import Cvss.Base.Go
 import Cvss.Gen.V30
 set_option linter.unusedVariables false
-/-! GENERATED from /repo/30 (parser mode) — do not edit -/
+/-! GENERATED from package 30 (parser mode) — do not edit -/
 namespace GenP30
 
-/-- splitCouple: body of the loop at /repo/30/cvss30.go:83:2 -/
+/-- splitCouple: body of the loop at cvss30.go -/
 def splitCouple_for1 (couple : (List Nat)) : Nat → Go.Ctl Nat (Option ((List Nat) × (List Nat)))
   | i =>
     Go.index couple i (Go.Ctl.ret none) fun t0 =>
@@ -14,7 +14,7 @@ def splitCouple_for1 (couple : (List Nat)) : Nat → Go.Ctl Nat (Option ((List N
       Go.Ctl.ret (some (t1, t2)))
       (Go.Ctl.next i)
 
-/-- splitCouple  (/repo/30/cvss30.go:82:1)
+/-- splitCouple  (cvss30.go)
     result: `none` = panic; `some (results…)` -/
 def splitCouple (couple : (List Nat)) : (Option ((List Nat) × (List Nat))) :=
   let i := (0 : Nat)
@@ -27,7 +27,7 @@ def splitCouple (couple : (List Nat)) : (Option ((List Nat) × (List Nat))) :=
   | Go.Loop.done i =>
   some (couple, ([] : List Nat) /-  -/)
 
-/-- kvm.Set  (/repo/30/cvss30.go:921:1)
+/-- kvm.Set  (cvss30.go)
     result: `none` = panic; `some (kvm, results…)` -/
 def kvm_Set (kvm : (List Bool)) (abv : (List Nat)) : (Option ((List Bool) × Go.Err)) :=
   let dst : (Option Nat) := none /- nil -/
@@ -187,7 +187,7 @@ def kvm_Set (kvm : (List Bool)) (abv : (List Nat)) : (Option ((List Bool) × Go.
       some (kvm, Go.errNil)))
    (some (kvm, (Go.Err.mk 101 abv) /- ErrInvalidMetric -/)))))))))))))))))))))))
 
-/-- ParseVector: body of the loop at /repo/30/cvss30.go:38:2 -/
+/-- ParseVector: body of the loop at cvss30.go -/
 def ParseVector_for1 (vector : (List Nat)) (l : Nat) : (Nat × (List Bool) × Nat × Nat × Nat × Nat × Nat × Nat × Nat) → Go.Ctl (Nat × (List Bool) × Nat × Nat × Nat × Nat × Nat × Nat × Nat) (Go.Res (Nat × Nat × Nat × Nat × Nat × Nat))
   | (i, kvm, u0, u1, u2, u3, u4, u5, start) =>
     match (cond (Nat.beq i l) (some true)
@@ -213,7 +213,7 @@ def ParseVector_for1 (vector : (List Nat)) (l : Nat) : (Nat × (List Bool) × Na
           Go.Ctl.next (i, kvm, u0, u1, u2, u3, u4, u5, start))))
       (Go.Ctl.next (i, kvm, u0, u1, u2, u3, u4, u5, start))
 
-/-- ParseVector  (/repo/30/cvss30.go:17:1)
+/-- ParseVector  (cvss30.go)
     result: `Go.Res.ok fields` = `return obj, nil`; `Go.Res.err e` = `return nil, e`; `Go.Res.panic` -/
 def ParseVector (vector : (List Nat)) : (Go.Res (Nat × Nat × Nat × Nat × Nat × Nat)) :=
   cond (!(Go.hasPrefix vector ([67, 86, 83, 83, 58, 51, 46, 48, 47] : List Nat) /- CVSS:3.0/ -/))
